@@ -13,6 +13,7 @@ def table : List ModelEntries :=
   , Entries.eventv1
   , Entries.autoreset
   , Entries.eventv2
+  , Entries.asyncpass
   ]
 
 def lookup (m c : String) : Option Entry :=
